@@ -96,6 +96,33 @@ def handle (op : String) (args : List String) (impl : String) : Option Verdict :
     -- property on the implementation's output: every delivered message is attributed to the authenticated remote peer
     let ok := (items impl ";").all fun it => (it.splitOn ":").headD "" == toString r
     return ⟨out, ok && impl != "panic" && impl != "hang", s!"attr:n={min ls.length 3}:delivered={min ms.length 3}:allok={ls.all (·.kind = "ok")}"⟩
+  | "refreshseq", [init, evs] => some <| Id.run do
+    let some t0 := parseTopo init | return bad
+    let some parsed := (evs.splitOn "#").mapM (fun e =>
+      match e.splitOn "~" with
+      | [hashes, body, oracle, storeOk] => do
+        let orc ← parseOracle oracle
+        let hs : Option (List String) :=
+          if hashes = "x" then none else some ((items hashes ",").map fun h => if h = "E" then "" else h)
+        let fetched ← (if body = "x" then some Fetched.error else (fromHex body).map Fetched.body)
+        pure (orc, (⟨hs, fetched, storeOk = "1"⟩ : Ev))
+      | _ => none) | return bad
+    let st0 := adopt t0
+    -- each call has its own decrypt/parse oracle value (the parameters of the model, fed from the real library calls)
+    let step := fun (acc : St × List String × List Topo) (x : Option (List Nat × Int) × Ev) =>
+      let env : Env := ⟨Sha256.sha256, id, fun _ => x.1⟩
+      let (st', oc) := refresh env acc.1 x.2
+      (st', acc.2.1 ++ [match oc with | .done => "done" | .panic => "panic"],
+        acc.2.2 ++ (match adoptable env x.2 with | some t => [t] | none => []))
+    let (st1, ocs, adoptables) := parsed.foldl step (st0, [], [])
+    let m := ",".intercalate ocs ++ "|" ++ showSt st1
+    -- property on the implementation's output: the final state is the initial one or the adoption of an announced topology
+    let ok := match impl.splitOn "|" with
+      | _ :: rest => match parseSt rest with
+        | some st' => st' == st0 || adoptables.any (fun t => st' == adopt t)
+        | none => false
+      | _ => false
+    return ⟨m, ok, s!"refreshseq:n={parsed.length}:adoptable={min adoptables.length 3}:panics={ocs.any (· == "panic")}"⟩
   | "cli", [t] => some <| Id.run do
     let some topo := parseTopo t | return bad
     let m := "ok:" ++ showNats topo.peers ++ "/" ++ toString topo.threshold
